@@ -181,7 +181,8 @@ class Explorer:
         self.local_fns = {}
         for st in func.node.body:
             if isinstance(st, ast.FunctionDef):
-                body = [b for b in st.body if not (isinstance(b, ast.Expr) and isinstance(b.value, ast.Constant))]
+                from .astutil import effective
+                body = effective(st.body)
                 if len(body) == 1 and isinstance(body[0], ast.Return) and body[0].value is not None and \
                         not st.args.vararg and not st.args.kwarg and not st.args.kwonlyargs:
                     self.local_fns[st.name] = st
